@@ -345,3 +345,72 @@ def gen_names_file(rng):
     secs = {'.debug_info': info, '.debug_abbrev': abbrevs, '.debug_aranges': aranges, '.debug_pubnames': pubn, '.debug_pubtypes': pubt}
     img = oracles.wrap_debug(secs, le, cls=cls, machine=machine, etype=2)
     return img, dict(cls=cls, le=le, units=shape, dup_pubnames=len(set(all_n)) != len(all_n), dup_pubtypes=len(set(all_t)) != len(all_t))
+
+
+# ---------------------------------------------------------------- location and range lists (DWARF 2-4)
+def gen_loc_file(rng):
+    """-> (image, description): units of DWARF 2-4 whose subprograms have a frame base, variables with
+    location lists in .debug_loc and lexical blocks with range lists in .debug_ranges; list entries are
+    relative to the unit's low_pc, with an occasional base-address selection entry."""
+    from .. import oracles
+    le = rng.random() < 0.7
+    cls = rng.choice([32, 64])
+    asz = cls // 8
+    machine = (62 if le else 21) if cls == 64 else (3 if le else 8)
+    E = '<' if le else '>'
+    A = E + ('Q' if asz == 8 else 'I')
+    MAXA = 2 ** (8 * asz) - 1
+    loc = bytearray()
+    rngs = bytearray()
+    info = b''
+    abbrevs = b''
+    shape = []
+    exprs = [bytes([0x50 + r]) for r in (0, 3, 5)] + [bytes([0x91]) + sleb(v) for v in (-20, 8)] + [bytes([0x75, 0x10]), bytes([0x70, 0x00, 0x06]),
+             bytes([0x53, 0x93, 0x04, 0x52, 0x93, 0x04]), bytes([0x9c]), bytes([0x31, 0x9f])]
+    for i in range(rng.choice([1, 2])):
+        ver = rng.choice([2, 3, 4])
+        low = rng.choice([0x1000, 0x401000]) + 0x10000 * i
+        size = 0x400
+        cu = dwtab.CU(version=ver, asz=asz, le=le)
+        cu.root_name = 'unit%d.c' % i
+        hp = (0x12, 0x01, struct.pack(A, low + size), None) if ver < 4 else (0x12, 0x07 if asz == 8 else 0x06, struct.pack(A, size), None)
+        cu.root_attrs = [(0x11, 0x01, struct.pack(A, low), None), hp]
+        lform = (0x17 if ver >= 4 else 0x06)
+        fb = rng.choice([bytes([0x9c]), bytes([0x56]), bytes([0x77, 0x08])])
+        cu.scope = (0x2e, [(0x03, 0x08, b'fn\0', None), (0x11, 0x01, struct.pack(A, low), None),
+                           (0x12, 0x01, struct.pack(A, low + size), None) if ver < 4 else (0x12, 0x0f, uleb(size), None),
+                           (0x40, 0x0a if ver < 4 else 0x18, bytes([len(fb)]) + fb, None)])
+        nl = rng.choice([1, 2, 4])
+        for k in range(nl):
+            off = len(loc)
+            pos = 0
+            for e in range(rng.choice([1, 2, 3])):
+                # no base-address selection entries in .debug_loc: the clone follows the layout of readelf 2.41 for them
+                # ('offset base (base address)'), the 2.40 on this image prints 'offset ffffffff base (base address)'
+                a = pos + rng.choice([0, 4, 0x10])
+                b = a + rng.choice([1, 8, 0x40])
+                pos = b
+                x = rng.choice(exprs)
+                loc += struct.pack(A, a) + struct.pack(A, b) + struct.pack(E + 'H', len(x)) + x
+            loc += struct.pack(A, 0) * 2
+            cu.add(0x34, [(0x02, lform, struct.pack(E + 'I', off), None)], label='v%d' % k)
+        nr = rng.choice([0, 1, 2])
+        for k in range(nr):
+            off = len(rngs)
+            pos = 0
+            for e in range(rng.choice([1, 2, 4])):
+                a = pos + rng.choice([0, 4, 0x20])
+                b = a + rng.choice([2, 0x10])
+                pos = b
+                rngs += struct.pack(A, a) + struct.pack(A, b)
+            rngs += struct.pack(A, 0) * 2
+            cu.add(0x0b, [(0x55, lform, struct.pack(E + 'I', off), None)])
+        u, ab, _ = cu.build(abbrev_base=len(abbrevs))
+        info += u
+        abbrevs += ab
+        shape.append((ver, nl, nr))
+    secs = {'.debug_info': info, '.debug_abbrev': abbrevs, '.debug_loc': bytes(loc)}
+    if rngs:
+        secs['.debug_ranges'] = bytes(rngs)
+    img = oracles.wrap_debug(secs, le, cls=cls, machine=machine, etype=2)
+    return img, dict(cls=cls, le=le, units=shape)
